@@ -26,7 +26,13 @@ import textwrap
 from . import common
 
 OUT = common.LEAN / "YadismModel" / "Generated" / "Effects.lean"
-SRC_ROOT = str(pathlib.Path(importlib.import_module("yadism").__file__).resolve().parent.parent) + "/"  # /repo/src/ (a scratch worktree when tried on a seeded change)
+
+
+def src_root():
+    """/repo/src/ (a scratch worktree when the translator is tried on a seeded change); evaluated lazily: the
+    harness fixes the import path and the numba mode before yadism is imported"""
+    return str(pathlib.Path(importlib.import_module("yadism").__file__).resolve().parent.parent) + "/"
+
 
 MUTATORS = {"pop", "update", "setdefault", "clear", "popitem", "append", "extend", "insert", "remove", "sort", "reverse", "add", "discard", "__setitem__", "__delitem__", "resize", "fill", "put", "itemset", "setflags"}
 READERS = {"get", "items", "keys", "values", "copy", "index", "count", "format", "join", "split", "lower", "upper", "startswith", "endswith", "info", "debug", "warning", "tolist", "strip"}
@@ -49,6 +55,12 @@ ROOTS = [
 LIFECYCLES = [
     ("sf", "yadism.sf", "StructureFunction", ["load", "get_esf", "drop_cache", "get_result"]),
     ("xs", "yadism.xs", "CrossSection", ["load", "get_esf", "get_result"]),
+    # the evaluated objects keep a reference to the caller's kinematics dict: none of their methods may store into it
+    # (EvaluatedCrossSection.get_result and the TMC integration loop store into attributes of objects they
+    # have just built - `sigma.orders[...] = v` - which this flat analysis cannot tell from a store through
+    # an alias: not claimed, left to the deep comparison of real runs)
+    ("esfObj", "yadism.esf.esf", "EvaluatedStructureFunction", ["get_result"]),
+    ("tmcObj", "yadism.esf.tmc", "EvaluatedStructureFunctionTMC", ["get_result"]),
 ]
 
 
@@ -163,7 +175,10 @@ class Walker:
             self.escapes.append((fname, roots))
             return
         if f_obj is None:
-            raise Untranslatable("cannot resolve call target " + fname)
+            # a local name or parameter that holds a callable: not followed
+            roots = sorted({self.name(r, ren) for r in (root_of(a)[0] for a in arg_nodes) if r})
+            self.escapes.append((fname, roots))
+            return
         if f_obj in (_copy.copy, _copy.deepcopy):
             return  # a copy reads its argument
         if getattr(f_obj, "__module__", "") == "builtins" or f_obj in (vars(builtins).values()):
@@ -176,7 +191,7 @@ class Walker:
         except TypeError:
             pass
         fn = getattr(f_obj, "__func__", f_obj)
-        if src and src.startswith(SRC_ROOT) and inspect.isfunction(fn) and depth < 3:
+        if src and src.startswith(src_root()) and inspect.isfunction(fn) and depth < 3:
             self.inline(fn, node, mod, ren, branch, depth)
             return
         roots = [root_of(a)[0] for a in arg_nodes]
@@ -191,7 +206,11 @@ class Walker:
         if params and params[0] in ("self", "cls"):
             params = params[1:]
         if node.keywords or len(node.args) > len(params) or tree.args.vararg or tree.args.kwarg:
-            raise Untranslatable("call shape of " + fn.__qualname__)
+            # keyword / variadic call: not inlined, the arguments escape to the callee
+            arg_nodes = list(node.args) + [k.value for k in node.keywords]
+            roots = sorted({self.name(r, ren) for r in (root_of(a)[0] for a in arg_nodes) if r})
+            self.escapes.append((ast.unparse(node.func), roots))
+            return
         tag = f"{fn.__name__}{self.n_inlined}"
         new_ren = {}
         for p, a in zip(params, node.args):
@@ -279,8 +298,11 @@ class Walker:
                 d = dotted(st.target)
                 if d is not None:
                     # `x |= d`, `x += [..]` change a mutable object in place: count it as a write
+                    # afterwards the name refers to the same (changed) object or to a new one: if it was the
+                    # program's own before, it still is
                     self.emit("write", self.name(d, ren) if "." in d or d in ren else ren.local(d))
-                self.bind(st.target, None, mod, ren, branch)
+                else:
+                    self.bind(st.target, None, mod, ren, branch)
             elif isinstance(st, ast.Delete):
                 for t in st.targets:
                     self.bind(t, None, mod, ren, branch)
@@ -302,8 +324,8 @@ class Walker:
             elif isinstance(st, ast.Raise):
                 if st.exc is not None:
                     self.expr(st.exc, mod, ren, branch, depth)
-            elif isinstance(st, ast.Pass):
-                pass
+            elif isinstance(st, (ast.Pass, ast.Continue, ast.Break)):
+                pass  # control flow only: every statement is optional for the oracle anyway
             elif isinstance(st, ast.Try):
                 self.block(st.body, mod, ren, depth)
                 for h in st.handlers:
@@ -357,6 +379,10 @@ class LocalRen(dict):
 def fresh_source(value, mod, name):
     """`Y` if value is `Y.copy()`; "<new>" for displays, dict()/list()/set() and class instantiation; else None"""
     if isinstance(value, (ast.Dict, ast.List, ast.Set, ast.DictComp, ast.ListComp, ast.SetComp)):
+        return "<new>"
+    if isinstance(value, (ast.Constant, ast.BinOp, ast.UnaryOp, ast.Compare, ast.JoinedStr, ast.Tuple)):
+        # numbers, strings, tuples and the results of arithmetic are new (or immutable) objects: nothing
+        # the caller holds can be changed through them at depth 0
         return "<new>"
     if isinstance(value, ast.Call):
         f = value.func
